@@ -2,6 +2,7 @@ import Pyunicorn.Model.Proto
 import Pyunicorn.Model.Access
 import Pyunicorn.Model.WhileKernels
 import Pyunicorn.Model.LineIdx
+import Pyunicorn.Model.NsiIdx
 import Pyunicorn.Generated.StructC20Pyx
 import Pyunicorn.Generated.StructC20Py
 /-! Line-protocol driver of C20: access traces / verdicts of the raw-pointer
@@ -170,6 +171,14 @@ def answer (toks : List String) : String :=
             (intMat rm) (intMat em) eps2.toInt! (ints mm) with
         | none => "raise"
         | some h => if h.isEmpty then "-" else join (h.map toString)
+  | ["nsiidx", n, k, nbr, wlen, slen, targets] =>
+      -- `_nsi_betweenness` at its own boundary: does the contract hold, and IndexError | returns
+      let N := n.toNat!
+      (if Pyunicorn.NsiIdx.csrOK N (nats k) (nats nbr) wlen.toNat! slen.toNat! (nats targets)
+        then "valid|" else "any|") ++
+      (match Pyunicorn.NsiIdx.nsiBetwIdx N (nats k) (nats nbr) wlen.toNat! slen.toNat! (nats targets) with
+       | none => "raise"
+       | some _ => "ok")
   | ["psites", key, b, kv] => predictKernel key b.toInt! (kvs kv)
   | _ => "bad-request"
 
